@@ -105,7 +105,7 @@ def check(case):
         if e.stage == "codegen":
             add(f"codegen-raises:{cm.exc_site(e.exc)}", "C code generation raises although NumPy generation succeeds", {"ode": text}, "C source", cm.exc_name(e.exc), str(e), base=f"codegen-raises:{cm.exc_site(e.exc)}")
         else:
-            kind = f"compile-error:{slug(str(e.exc))}"
+            kind = f"compile-error:{cm.compile_key(e.exc, set(ref.states) | set(ref.params) | set(ref.assigns))}"
             add(kind, "generated C does not compile with gcc -shared -fPIC -O0", {"ode": text}, "compiles", str(e.exc), e.detail, base=kind)
         return res
     with cmod:
